@@ -24,7 +24,7 @@ PROPS = {
     "C10": {"level": "model_checking", "bounds_text": BT, "G": G(["schema"], "^Harness_Schema_", "^C10/"),
             "K": [K("^Harness_K4_", "^C10/"), K("^Harness_K7_", "^C10/", strmax=4, splitmax=3)]},
     "C16": {"level": "model_checking", "bounds_text": BT, "K": [K("^Harness_K8_(CLI|ReadConfig)", "^C16/", strmax=4, splitmax=3)]},
-    "C14": {"level": "model_checking", "bounds_text": BT, "K": [K("^Harness_K8_ListOrder", "^C14/", strmax=3, splitmax=4)], "O": "determinism"},
+    "C14": {"level": "model_checking", "bounds_text": BT, "K": [K("^Harness_K8_ListOrder", "^C14/", strmax=3, splitmax=4), K("^Harness_K14_", "^C14/", strmax=3)], "O": "determinism"},
     "C02": {"level": "model_checking", "bounds_text": BT, "G": G(["schema", "rt", "from"], "^Harness_(Schema|RT|From)_", "^C02/"),
             "K": [K("^Harness_K1_", "^C02/"), K("^Harness_K2_", "^C02/", strmax=4)]},
     "C18": {"level": "model_checking", "bounds_text": BT, "K": [K("^Harness_K2_", "^C18/", strmax=4)], "O": "unsupported"},
@@ -34,7 +34,7 @@ PROPS = {
             "V": G([], "^Harness_Diff_", "^C11/")},
     "C12": {"level": "translation_validation", "bounds_text": BT, "V": G([], "^Harness_Diff_", "^C12/"), "K": [K("^Harness_K12_", "^C12/")], "O": "selection"},
     "C13": {"level": "translation_validation", "bounds_text": BT, "V": G([], "^Harness_Diff_", "^C13/"), "K": [K("^Harness_K9_", "^C13/", strmax=5)]},
-    "C15": {"level": "translation_validation", "bounds_text": BT, "V": G([], "^Harness_Diff_", "^C15/")},
+    "C15": {"level": "translation_validation", "bounds_text": BT, "V": G([], "^Harness_Diff_", "^C15/"), "O": "sorted"},
     "C03": {"level": "model_checking", "bounds_text": BT, "G": G(["rt"], "^Harness_RT_", "^C03/")},
     "C04": {"level": "model_checking", "bounds_text": BT, "G": G(["rt"], "^Harness_RT_", "^C04")},
     "C19": {"level": "model_checking", "bounds_text": BT, "G": G(["rt"], "^Harness_RT_", "C19/")},
